@@ -271,7 +271,7 @@ pub fn run_c07(tier: Tier, seed: u64) -> i32 {
         "the two-thread schedule clause (send after the receiver is gone) is observed on the hooked binary under failpoints in the same check (section 'schedules' of the evidence)".into(),
     ];
     let h = ZobristHasher::create_zobrist_hasher();
-    let n_roots = tier.pick(48usize, 400);
+    let n_roots = tier.pick(80usize, 800);
     let roots = search_roots(seed, n_roots, &h, false);
     let all_below = tier.pick(1200u64, 5000);
     let random_n = tier.pick(150u64, 500);
@@ -351,7 +351,7 @@ pub fn run_c12(tier: Tier, seed: u64) -> i32 {
         "positions whose reference exceeds the node budget are counted as skipped_budget, not decided".into(),
     ];
     let h = ZobristHasher::create_zobrist_hasher();
-    let n_roots = tier.pick(96usize, 1500);
+    let n_roots = tier.pick(800usize, 8000);
     let roots = search_roots(seed, n_roots, &h, false);
     let budget = tier.pick(3_000_000u64, 30_000_000);
     let results = par::par_map(roots.len(), |j| {
